@@ -36,6 +36,23 @@ pub const ENERGY_RATE_UNITS: [EnergyRateUnit; 5] = [
     EnergyRateUnit::KilowattHoursPerMeter,
 ];
 
+/// the distance unit an energy rate is "per", by the unit's name (not the library's `associated_distance_unit`)
+pub fn rate_distance_unit(u: &EnergyRateUnit) -> DistanceUnit {
+    match u {
+        EnergyRateUnit::GallonsGasolinePerMile | EnergyRateUnit::GallonsDieselPerMile | EnergyRateUnit::KilowattHoursPerMile => DistanceUnit::Miles,
+        EnergyRateUnit::KilowattHoursPerKilometer => DistanceUnit::Kilometers,
+        EnergyRateUnit::KilowattHoursPerMeter => DistanceUnit::Meters,
+    }
+}
+/// the energy unit an energy rate yields, by the unit's name (not the library's `associated_energy_unit`)
+pub fn rate_energy_unit(u: &EnergyRateUnit) -> EnergyUnit {
+    match u {
+        EnergyRateUnit::GallonsGasolinePerMile => EnergyUnit::GallonsGasoline,
+        EnergyRateUnit::GallonsDieselPerMile => EnergyUnit::GallonsDiesel,
+        EnergyRateUnit::KilowattHoursPerMile | EnergyRateUnit::KilowattHoursPerKilometer | EnergyRateUnit::KilowattHoursPerMeter => EnergyUnit::KilowattHours,
+    }
+}
+
 /// metres per unit
 pub fn distance_m(u: &DistanceUnit) -> f64 {
     match u {
